@@ -380,7 +380,7 @@ class ItemList:
         """
         return ItemList(
             item_ids=self._ids,
-            item_nums=self._numbers,
+            item_nums=self._numbers.numpy() if self._numbers is not None else None,
             vocabulary=self._vocab,
             ordered=self.ordered,
             **self._fields,  # type: ignore
